@@ -93,20 +93,26 @@ RECIPES = {
     },
     "C11": {
         "level": "model_checking",
-        "mc": {"quick": [], "thorough": []},
+        "mc": {"quick": [("MC_Hash", "MC_Gnu_q", 10)], "thorough": [("MC_Hash", "MC_Gnu_t", 14)]},
         "families": {"quick": [("gnuhash", 120, 4)], "thorough": [("gnuhash", 1000, 12)]},
         "reasons": ("value", "panic"),
-        "rule": "B: harness-built .gnu.hash tables (1..60 symbols, nbucket 1..n, bloom 1..64 words, shift 0..31, symoffset 1..3, "
+        "rule": "A: .gnu.hash sections built in TLA+ from the format description for every set of <= 2 (thorough 3) names of a "
+                "9-name pool (empty, non-UTF-8, djb2-colliding pair, bit-0 pair, long) x nbucket x bloom words x shift x symoffset x "
+                "class/order: TLC checks well-formedness, completeness for every pool name (present and absent) and soundness, "
+                "and emits each table with 11 lookups for replay; "
+                "B: harness-built .gnu.hash tables (1..60 symbols, nbucket 1..n, bloom 1..64 words, shift 0..31, symoffset 1..3, "
                 "both classes/orders, djb2-colliding and same-bucket absent names, duplicates, empty and non-UTF-8 names) and "
                 "corrupted variants; TLC itself checks the table is well formed before demanding completeness; soundness always",
         "assumptions": COMMON_ASSUME,
     },
     "C12": {
         "level": "model_checking",
-        "mc": {"quick": [("MC_Links", "MC_Links_q")], "thorough": [("MC_Links", "MC_Links_t", 12)]},
+        "mc": {"quick": [("MC_Links", "MC_Links_q"), ("MC_Hash", "MC_Sysv_q", 8)], "thorough": [("MC_Links", "MC_Links_t", 12), ("MC_Hash", "MC_Sysv_t", 12)]},
         "families": {"quick": [("sysvhash", 120, 4)], "thorough": [("sysvhash", 1000, 12)]},
         "reasons": ("value", "panic"),
-        "rule": "B: harness-built .hash tables and corrupted variants, as C11; hash function vs the gABI elf_hash text",
+        "rule": "A: .hash sections built in TLA+ for every set of <= 3 (thorough 4) pool names x nbucket 1..3 x class/order "
+                "(completeness, soundness, replay) and every bucket/chain function over 3 (4) symbols (MC_Links); "
+                "B: harness-built .hash tables and corrupted variants, as C11; hash function vs the gABI elf_hash text",
         "assumptions": COMMON_ASSUME,
     },
     "C13": {
